@@ -5,9 +5,12 @@
                           PER_GUARDTRANSITION block (shape from Gen/CsTmpl.v) with the lines whose guard / action /
                           target tag has no value dropped (smgen.innerexpand_transitionsperguard);
      parse_braces         brace matching: `if (g)` must be followed by a `{ ... }` block, a bare `{ ... }` is a block;
-     exec_cs              execution of a parsed body: Exit<S>() calls On<cur>Exit of the current state object, Enter<T>()
-                          makes T the current state object and calls On<T>Entry, `sm.estate = T` sets the enum that
-                          Is<State>() reads, `return` leaves the handler.
+     exec_h               the helper methods Enter<StateT>() / Exit<StateT>() / Reset() / the constructor, executed from their
+                          source-derived IR (Gen/CsTmpl.v): state object creation, the virtual OnEntry / OnExit of the
+                          CURRENT state object (null or an unset controller raise), early returns, state-is-T tests;
+     exec_cs              execution of a parsed handler body: sm.Exit<S>() / sm.Enter<T>() run those helpers,
+                          `sm.estate = T` sets the enum that Is<State>() reads, `return` leaves the handler;
+     run_cs               construction, then Trigger<e> per event dispatched to the current state object's class.
    No proofs here. *)
 From Coq Require Import String Ascii List Bool Arith.
 From KV Require Import Lib.TableDef Model.TTable Model.CsShape Spec.TableInterp Gen.CsTmpl.
@@ -64,9 +67,56 @@ Fixpoint parse_cs (fuel : nat) (ts : list ctok) : option (list cstmt * list ctok
 Definition parse_braces (ts : list ctok) : option (list cstmt) :=
   match parse_cs (S (length ts)) ts with Some (ss, []) => Some ss | _ => None end.
 
-(* machine state: current state object, estate enum, guard calls *)
-Record csst := mkCs { c_obj : string; c_enum : string; c_n : nat }.
+(* machine state: current state object ("" = null), estate enum, guard calls, controller set?, exception raised? *)
+Record csst := mkCs { c_obj : string; c_enum : string; c_n : nat; c_ctl : bool; c_err : bool }.
 Definition cres := (bool * list cb * csst)%type.    (* returned?, callbacks, state *)
+
+Definition cseq (r1 : cres) (k : csst -> cres) : cres :=
+  match r1 with
+  | (false, t1, m1) => match k m1 with (b, t2, m2) => (b, (t1 ++ t2)%list, m2) end
+  | other => other
+  end.
+
+Definition raise (m : csst) : cres := (true, [], mkCs (c_obj m) (c_enum m) (c_n m) (c_ctl m) true).  (* NullReferenceException *)
+Definition as_call_cs (r : cres) : cres := match r with (_, t, m) => (c_err m, t, m) end.   (* a call returns; an exception propagates *)
+
+(* ---- the helper methods of the state-machine class, from their IR (Gen/CsTmpl.v) *)
+Section Helpers.
+  Variable e : string.                          (* label of the callbacks: the event being handled / the startup event *)
+  Variable first : string.                      (* <<<STATE_0>>> *)
+  Variables (enter_first reset : csst -> cres). (* the methods a helper may call *)
+
+  (* state.OnEntry(controller) / OnExit: virtual call on the current state object, whose class calls context.On<class>Entry/Exit *)
+  Definition hook (entry : bool) (m : csst) : cres :=
+    if c_ctl m && negb (String.eqb (c_obj m) "") then (false, [if entry then CEntry (c_obj m) e else CExit (c_obj m) e], m)
+    else raise m.
+
+  Fixpoint exec_h1 (t : string) (s : hstmt) (m : csst) {struct s} : cres :=
+    match s with
+    | HNewState => (false, [], mkCs t (c_enum m) (c_n m) (c_ctl m) (c_err m))
+    | HOnEntry => hook true m
+    | HOnExit => hook false m
+    | HReturn => (true, [], m)
+    | HIfStateIsT body =>
+        if String.eqb (c_obj m) t
+        then (fix go (ss : list hstmt) (m : csst) : cres :=
+                match ss with [] => (false, [], m) | x :: r => cseq (exec_h1 t x m) (go r) end) body m
+        else (false, [], m)
+    | HSetController => (false, [], mkCs (c_obj m) (c_enum m) (c_n m) true (c_err m))
+    | HCallReset => as_call_cs (reset m)
+    | HEnterFirst => as_call_cs (enter_first m)
+    | HSetEstateFirst => (false, [], mkCs (c_obj m) first (c_n m) (c_ctl m) (c_err m))
+    end.
+
+  Fixpoint exec_h (t : string) (ss : list hstmt) (m : csst) : cres :=
+    match ss with [] => (false, [], m) | s :: r => cseq (exec_h1 t s m) (exec_h t r) end.
+End Helpers.
+
+Definition no_call (m : csst) : cres := raise m.
+Definition cs_enter (e t : string) (m : csst) : cres := as_call_cs (exec_h e "" no_call no_call t cs_enter_ir m).
+Definition cs_exit (e t : string) (m : csst) : cres := as_call_cs (exec_h e "" no_call no_call t cs_exit_ir m).
+Definition cs_reset (e first : string) (m : csst) : cres := exec_h e first (cs_enter e first) no_call "" cs_reset_ir m.
+Definition cs_ctor (e first : string) (m : csst) : cres := exec_h e first no_call (cs_reset e first) "" cs_ctor_ir m.
 
 Section ExecCs.
   Variable gv : gval.
@@ -75,17 +125,11 @@ Section ExecCs.
   Definition exec_ctok (a : ctok) (m : csst) : cres :=
     match a with
     | TReturn => (true, [], m)
-    | TExit _ => (false, [CExit (c_obj m) e], m)            (* state.OnExit(controller): the CURRENT state object *)
+    | TExit s => cs_exit e s m                              (* sm.Exit<s>() *)
     | TAction x => (false, [CAction x e], m)
-    | TEnter s => (false, [CEntry s e], mkCs s (c_enum m) (c_n m))
-    | TSetState s => (false, [], mkCs (c_obj m) s (c_n m))
+    | TEnter s => cs_enter e s m                            (* sm.Enter<s>() *)
+    | TSetState s => (false, [], mkCs (c_obj m) s (c_n m) (c_ctl m) (c_err m))
     | _ => (false, [], m)
-    end.
-
-  Definition cseq (r1 : cres) (k : csst -> cres) : cres :=
-    match r1 with
-    | (false, t1, m1) => match k m1 with (b, t2, m2) => (b, (t1 ++ t2)%list, m2) end
-    | other => other
     end.
 
   Fixpoint exec_cstmt (s : cstmt) (m : csst) : cres :=
@@ -95,10 +139,39 @@ Section ExecCs.
     | CAtom a => exec_ctok a m
     | CBlock body => go body m
     | CIf g body =>
-        if gv (c_n m) g then cseq (false, [CGuard g e], mkCs (c_obj m) (c_enum m) (S (c_n m))) (go body)
-        else (false, [CGuard g e], mkCs (c_obj m) (c_enum m) (S (c_n m)))
+        if gv (c_n m) g then cseq (false, [CGuard g e], mkCs (c_obj m) (c_enum m) (S (c_n m)) (c_ctl m) (c_err m)) (go body)
+        else (false, [CGuard g e], mkCs (c_obj m) (c_enum m) (S (c_n m)) (c_ctl m) (c_err m))
     end.
 
   Fixpoint exec_cs (ss : list cstmt) (m : csst) : cres :=
     match ss with [] => (false, [], m) | x :: r => cseq (exec_cstmt x m) (exec_cs r) end.
 End ExecCs.
+
+(* ---- the whole machine: construction, then Trigger<e> per event (non-threaded: the current state object's
+   Trigger<e> runs synchronously; a class without an override inherits the base class's empty virtual) *)
+Definition cs_trigger (t : table) (gv : gval) (e : string) (m : csst) : cres :=
+  if cs_trigger_dispatches_synchronously && mem e (cs_handlers t (c_obj m)) then
+    match parse_braces (cs_handler t (c_obj m) e) with
+    | Some prog => as_call_cs (exec_cs gv e prog m)
+    | None => raise m
+    end
+  else if cs_trigger_dispatches_synchronously then (false, [], m) else raise m.
+
+Fixpoint cs_run_from (t : table) (gv : gval) (m : csst) (evs : list string) : option (list (list cb * string)) :=
+  match evs with
+  | [] => Some []
+  | e :: r =>
+      match cs_trigger t gv e m with
+      | (_, tr, m') =>
+          if c_err m' then None
+          else match cs_run_from t gv m' r with Some rest => Some ((tr, c_enum m') :: rest) | None => None end
+      end
+  end.
+
+(* per step: the callbacks, and the value of estate (what every Is<State>() reads) *)
+Definition run_cs (t : table) (evs : list string) (gv : gval) : option (list (list cb * string)) :=
+  match cs_ctor startup_event (getfirststate t) (mkCs "" "" 0 false false) with
+  | (_, tr, m) =>
+      if c_err m then None
+      else match cs_run_from t gv m evs with Some rest => Some ((tr, c_enum m) :: rest) | None => None end
+  end.
